@@ -12,7 +12,7 @@ import (
 )
 
 var (
-	montR    = new(big.Int).Lsh(big.NewInt(1), 256)                     // 2^256
+	montR    = new(big.Int).Lsh(big.NewInt(1), 256)                                 // 2^256
 	montRInv = new(big.Int).ModInverse(new(big.Int).Lsh(big.NewInt(1), 256), ref.R) // 2^-256 mod r
 )
 
